@@ -823,7 +823,7 @@ pub fn prop() -> Prop<Case> {
     Prop {
         id: "C07",
         level: "exploration",
-        rule: "two generated case kinds. Hist: history as C02 with every storage operation logged together with the pre-state of its path and the directory snapshotted (bytes) before/after each step: per backup step (complete, interrupted, resumed) every pre-existing file is still there byte-identical (a zero-length leftover may be completed), the log has no write to a path that held >0 bytes, no path written twice, no remove, and the new id exceeds every id that existed; per delete/gc step removals are confined to requested version directories, blocks unreferenced by the kept versions (independent scan) and GC_LOCK, and nothing is modified or created; a third of the histories end with an epilogue (complete backup, one of its blocks cut to 1-3 bytes, the unchanged source backed up again: the damaged file must not be written over); plus the transport contract (CreateNew on an existing file fails and leaves it; of four CreateNew writes of one new path issued together exactly one succeeds and its bytes are what the file holds). Race: two backups of differing sources on one archive under the deterministic scheduler: all schedules with <=2 context switches over thinned switch points (quick 10 / thorough 40 per actor) + generated random schedules; every version's files are written by one actor only, nobody writes to an existing non-empty path, pre-existing files unchanged, and every backup that reports success has a closed version that restores to its own source. Non-trivial: history step over an archive that already has a band; race schedule in which both actors list the versions before either creates one. Race schedules distinct by construction, histories by case hash. The transport contract is probed with payloads up to 3 MiB; fixed scale probes per run: a race of two backups sharing a 3 MiB single-block file, and a gc on a 10 015-hunk version; since round 7 a third of the histories end with a backup while a collector's lock file last touched 5 s, 2 h, 3 days or 400 days ago lies in the archive (it may refuse; the file must stay as it is), and race runs also fail the racer's first writes into its version (head, first hunks) after the other racer ran",
+        rule: "two generated case kinds. Hist: history as C02 with every storage operation logged together with the pre-state of its path and the directory snapshotted (bytes) before/after each step: per backup step (complete, interrupted, resumed) every pre-existing file is still there byte-identical (a zero-length leftover may be completed), the log has no write to a path that held >0 bytes, no path written twice, no remove, and the new id exceeds every id that existed; per delete/gc step removals are confined to requested version directories, blocks unreferenced by the kept versions (independent scan) and GC_LOCK, and nothing is modified or created; a third of the histories end with an epilogue (complete backup, one of its blocks cut to 1-3 bytes, the unchanged source backed up again: the damaged file must not be written over); plus the transport contract (CreateNew on an existing file fails and leaves it; of four CreateNew writes of one new path issued together exactly one succeeds and its bytes are what the file holds). Race: two backups of differing sources on one archive under the deterministic scheduler: all schedules with <=2 context switches over thinned switch points (quick 10 / thorough 40 per actor) + generated random schedules; every version's files are written by one actor only, nobody writes to an existing non-empty path, pre-existing files unchanged, and every backup that reports success has a closed version that restores to its own source. Non-trivial: history step over an archive that already has a band; race schedule in which both actors list the versions before either creates one. Race schedules distinct by construction, histories by case hash. The transport contract is probed with payloads up to 3 MiB; fixed scale probes per run: a race of two backups sharing a 3 MiB single-block file, and a gc on a 10 015-hunk version; since round 7 a third of the histories end with a backup while a collector's lock file last touched 5 s, 2 h, 3 days or 400 days ago lies in the archive (it may refuse; the file must stay as it is), and race runs also fail the racer's first writes into its version (head, first hunks) after the other racer ran; since round 9 the overlapping CreateNew writers also carry payloads of 2-7 MiB, and the faults on a racer's version writes include a connection-level error",
         assumptions: &[
             "interleavings are at transport-operation granularity on sequentially consistent local storage",
         ],
